@@ -14,11 +14,11 @@ import tsmmerge_common as T  # noqa: E402
 def run(ctx):
     tier = ctx.tier
     nts = 6 if tier == 'quick' else 7
-    r, states = T.run_family(ctx, f'TSMMerge.Arrays_{tier}.cfg', tag='arrays', timeout=1200)
+    r, states = T.run_family(ctx, f'TSMMerge.Arrays_{tier}.cfg', tag='arrays', timeout=3600)
     conc = ['small', 'lo', 'hi', 'wide', 'rand'] if tier == 'quick' else ['small', 'lo', 'hi', 'wide', 'rand', 'rand', 'rand']
     cases = [dict(st, nts=nts, conc=conc, salt=i) for i, st in enumerate(states)]
     binary = ctx.go_build('tsmmerge')
-    res, lines = ctx.replay(binary, cases, timeout=1200)
+    res, lines = ctx.replay(binary, cases, timeout=7200)
     ctx.absorb(res, lines)
     kinds = {}
     for st in states:
